@@ -451,7 +451,37 @@ func (r *Run) callStatic(fr *Frame, st *State, reach Term, callee *ssa.Function,
 	// in-place expansion: function literals of the function under verification, and helpers marked inline
 	if len(callee.Blocks) > 0 && (callee.Parent() != nil || (sp != nil && sp.Inline)) {
 		if fr.inlineDepth < maxInlineDepth {
-			return r.inlineCall(fr, st, reach, callee, binds, args)
+			// anchors of the caller's contract around an inlined call
+			short, ord := "", 0
+			if instr != nil && cc != nil {
+				short = r.calleeShortName(nil, cc)
+				ord = callOrdinal(instr.Parent(), instr, short, func(c *ssa.CallCommon) string { return r.calleeShortName(nil, c) })
+				av := map[string]Val{}
+				for i, p := range callee.Params {
+					if i < len(args) {
+						av["arg_"+p.Name()] = args[i]
+					}
+				}
+				r.ghostAt(fr, st, reach, fmt.Sprintf("before:%s#%d", short, ord), instr, av)
+			}
+			res, nr := r.inlineCall(fr, st, reach, callee, binds, args)
+			if short != "" {
+				rv := map[string]Val{}
+				for i, p := range callee.Params {
+					if i < len(args) {
+						rv["arg_"+p.Name()] = args[i]
+					}
+				}
+				if res.Kind == VTuple {
+					for i := range res.Tup {
+						rv[fmt.Sprintf("result%d", i)] = res.Tup[i]
+					}
+				} else if res.Kind != VNone {
+					rv["result"] = res
+				}
+				r.ghostAt(fr, st, nr, fmt.Sprintf("call:%s#%d", short, ord), instr, rv)
+			}
+			return res, nr
 		}
 		r.warn("inline depth exceeded at %s", funcKey(callee))
 	}
@@ -652,9 +682,11 @@ func (r *Run) callWithSpec(fr *Frame, st *State, reach Term, sp *FuncSpec, sig *
 	if sp.Havoc {
 		r.havocAll(st, reach)
 	}
+	r.factGuard = reach
 	for _, act := range preActs {
 		act(st)
 	}
+	r.factGuard = Term{}
 	// 3. results
 	res := r.freshTypedResults(sig, st)
 	penv := &Env{r: r, vars: map[string]Val{}, oldVars: env.vars, st: st, old: pre, pkg: env.pkg, specPkg: sp.Pkg}
@@ -683,7 +715,9 @@ func (r *Run) callWithSpec(fr *Frame, st *State, reach Term, sp *FuncSpec, sig *
 			r.fatal = fmt.Sprintf("%s assigns (at call in %s): %v", sp.Key, funcKey(fr.fn), penv.err)
 			return res, reach
 		}
+		r.factGuard = reach
 		act(st)
+		r.factGuard = Term{}
 	}
 	// 4. postcondition
 	for i, c := range sp.Ensures {
@@ -909,11 +943,11 @@ func (r *Run) resolveTarget(env *Env, a Expr, sp *FuncSpec) func(st *State) {
 					// only positions [off, off+len) change
 					row := r.ctx.Fresh("hv.row", arraySort(SInt, srt))
 					oldRow := Select(m, slBase(t))
-					r.ctx.Assert(Term{fmt.Sprintf("(forall ((j Int)) (! (=> (or (< j %s) (>= j %s)) (= (select %s j) (select %s j))) :pattern ((select %s j))))",
+					r.assertFact(Term{fmt.Sprintf("(forall ((j Int)) (! (=> (or (< j %s) (>= j %s)) (= (select %s j) (select %s j))) :pattern ((select %s j))))",
 						slOff(t).S, Add(slOff(t), slLen(t)).S, row.S, oldRow.S, row.S), SBool})
 					if isInteger(et) {
 						lo, hi := intRange(et)
-						r.ctx.Assert(Term{fmt.Sprintf("(forall ((j Int)) (! (and (<= %s (select %s j)) (<= (select %s j) %s)) :pattern ((select %s j))))",
+						r.assertFact(Term{fmt.Sprintf("(forall ((j Int)) (! (and (<= %s (select %s j)) (<= (select %s j) %s)) :pattern ((select %s j))))",
 							mkBig(lo).S, row.S, row.S, mkBig(hi).S, row.S), SBool})
 					}
 					r.heapSet(st, comp, r.ctx.Define("h."+comp, Store(m, slBase(t), row)))
@@ -1246,6 +1280,7 @@ func (r *Run) ghostAt(fr *Frame, st *State, reach Term, anchor string, instr ssa
 		if ac.Anchor != anchor {
 			continue
 		}
+		r.noteAnchor(sp, anchor)
 		env := r.baseEnv(fr, st)
 		if instr != nil {
 			env.pos = instr.Pos()
@@ -1279,6 +1314,7 @@ func (r *Run) ghostAt(fr *Frame, st *State, reach Term, anchor string, instr ssa
 		if gb.Anchor != anchor {
 			continue
 		}
+		r.noteAnchor(sp, anchor)
 		env := r.baseEnv(fr, st)
 		if instr != nil {
 			env.pos = instr.Pos()
@@ -1485,7 +1521,7 @@ func (r *Run) copyOp(fr *Frame, st *State, reach Term, cc *ssa.CallCommon, args 
 	row := r.ctx.Fresh("cprow", arraySort(SInt, srt))
 	j := Term{"j", SInt}
 	body := Eq(Select(row, j), Ite(And(Le(slOff(d), j), Lt(j, Add(slOff(d), n))), srcAt(Sub(j, slOff(d))), Select(oldRow, j)))
-	r.ctx.Assert(Term{fmt.Sprintf("(forall ((j Int)) (! %s :pattern ((select %s j))))", body.S, row.S), SBool})
+	r.ctx.Assert(Implies(reach, Term{fmt.Sprintf("(forall ((j Int)) (! %s :pattern ((select %s j))))", body.S, row.S), SBool}))
 	r.heapSet(st, comp, r.ctx.Define("h."+comp, Store(M, slBase(d), row)))
 	return termVal(n, intT)
 }
@@ -1656,4 +1692,51 @@ func (r *Run) allMapsComps(pkg *types.Package, x *ECall) []string {
 	m := types.NewMap(kt, vt)
 	h, v := r.mapComps(m)
 	return []string{h, v, r.mapLenComp(m)}
+}
+
+// noteAnchor records that an anchored clause or ghost block of a contract was reached by the generator.
+func (r *Run) noteAnchor(sp *FuncSpec, anchor string) {
+	if r.firedAnchors == nil {
+		r.firedAnchors = map[string]bool{}
+	}
+	r.firedAnchors[sp.Key+" "+anchor] = true
+}
+
+// unfiredAnchors: anchors written in the contract of the function under verification (and of the literals it
+// inlines) that no program point matched - a misspelt or renumbered anchor must not pass silently.
+func (r *Run) unfiredAnchors() []string {
+	var out []string
+	seen := map[string]bool{}
+	check := func(sp *FuncSpec) {
+		if sp == nil {
+			return
+		}
+		for _, ac := range sp.Asserts {
+			k := sp.Key + " " + ac.Anchor
+			if !r.firedAnchors[k] && !seen[k] {
+				seen[k] = true
+				out = append(out, k)
+			}
+		}
+		for _, gb := range sp.Ghost {
+			k := sp.Key + " " + gb.Anchor
+			if !r.firedAnchors[k] && !seen[k] {
+				seen[k] = true
+				out = append(out, k)
+			}
+		}
+	}
+	check(r.spec)
+	return out
+}
+
+// assertFact asserts a fact about a fresh symbol created while a call's effects are applied; it is guarded by the
+// reach term of the call so that the path filter can drop it for obligations elsewhere (the guard changes nothing
+// logically: the symbol is unconstrained off that path anyway).
+func (r *Run) assertFact(t Term) {
+	if r.factGuard.S != "" && !r.factGuard.IsTrue() {
+		r.ctx.Assert(Implies(r.factGuard, t))
+		return
+	}
+	r.ctx.Assert(t)
 }
